@@ -10,7 +10,7 @@ from . import aclgen as AG
 from .common import Spec, Claims
 
 PROPERTY = "C04"
-BOUNDS = ("ACLs of 2..4 (quick) / 2..5 (thorough) lines selected (order kept, reversed and seeded random orders) from 7 relation templates (one IOS-only with a multi-port eq entry leaving a gap) over shared "
+BOUNDS = ("ACLs of 2..4 (quick) / 2..5 (thorough) lines selected (order kept, reversed and seeded random orders) from 8 relation templates (one with numeric keyword-less protocols, one IOS-only with a multi-port eq entry leaving a gap) over shared "
           "symbolic addresses X/24, host in X/24, free Y, ports p..p+2 and q: nested / duplicate / disjoint addresses, ports and "
           "protocols, remarks + headings + log + TCP flags, non-contiguous wildcards, address groups with members; sequence "
           "numbers none or symbolic; group_by none or '= '; both platforms.  All addresses, ports, numbers and the probe packet "
